@@ -345,3 +345,70 @@ theorem tfRun_refines [DecidableEq G] : ∀ (ops : List (TFOp G)) (tf : TF G), I
     rw [this.2, hs.2]
 
 end VaxisModel.Lemmas.Editor
+
+namespace VaxisModel.Lemmas.Editor
+open VaxisModel.Model.TextField
+
+/-- Display width of a list of graphemes. -/
+def widthSum {G : Type} (width : G → Nat) : List G → Nat
+  | [] => 0
+  | g :: gs => width g + widthSum width gs
+
+/-- The `Draw` loop, started at grapheme index `i` in column `ofNat c`, ends in column
+`ofNat (c + widthSum l)`, and its cursor column is the column reached after `cursor - i` graphemes if
+the cursor lies in `(i, i + l.length]`. -/
+theorem drawLoop_eq {G : Type} (width : G → Nat) (cursor : Nat) :
+    ∀ (l : List G) (i c : Nat) (cur : UInt16),
+    drawLoop width cursor l i (UInt16.ofNat c) cur =
+      (i + l.length, UInt16.ofNat (c + widthSum width l),
+        if i < cursor ∧ cursor ≤ i + l.length then UInt16.ofNat (c + widthSum width (l.take (cursor - i))) else cur) := by
+  intro l
+  induction l with
+  | nil =>
+    intro i c cur
+    have : ¬ (i < cursor ∧ cursor ≤ i + ([] : List G).length) := by simp
+    rw [if_neg this]
+    simp [drawLoop, widthSum]
+  | cons g gs ih =>
+    intro i c cur
+    unfold drawLoop
+    simp only []
+    rw [← UInt16.ofNat_add, ih (i + 1) (c + width g)]
+    have e1 : i + 1 + gs.length = i + (g :: gs).length := by simp; omega
+    have e2 : c + width g + widthSum width gs = c + widthSum width (g :: gs) := by simp [widthSum]; omega
+    rw [e1, e2]
+    congr 2
+    by_cases h1 : i + 1 = cursor
+    · have hc1 : ¬ (i + 1 < cursor ∧ cursor ≤ i + (g :: gs).length) := by omega
+      have hc2 : i < cursor ∧ cursor ≤ i + (g :: gs).length := by simp; omega
+      have h3 : cursor - i = 1 := by omega
+      rw [if_neg hc1, if_pos hc2, if_pos h1, h3]
+      simp [widthSum]
+    · by_cases h2 : i + 1 < cursor ∧ cursor ≤ i + (g :: gs).length
+      · have hc2 : i < cursor ∧ cursor ≤ i + (g :: gs).length := by omega
+        have h3 : cursor - i = (cursor - (i + 1)) + 1 := by omega
+        rw [if_pos h2, if_pos hc2, h3, List.take_succ_cons]
+        simp only [widthSum, Nat.add_assoc]
+      · have hc2 : ¬ (i < cursor ∧ cursor ≤ i + (g :: gs).length) := by omega
+        rw [if_neg h2, if_neg hc2, if_neg h1]
+
+/-- `cursor_column` (TextField): the cursor column computed by `Draw` is the display width of the
+text before the cursor (as a `uint16`, like every column in vxfw). -/
+theorem drawCursorCol_eq {G : Type} (width : G → Nat) (tf : TF G) :
+    drawCursorCol width tf = UInt16.ofNat (widthSum width (tf.value.take tf.cursor)) := by
+  unfold drawCursorCol
+  have h0 : (0 : UInt16) = UInt16.ofNat 0 := rfl
+  have := drawLoop_eq width tf.cursor tf.value 0 0 (UInt16.ofNat 0)
+  simp only [Nat.zero_add, Nat.sub_zero] at this
+  rw [h0, this]
+  simp only
+  by_cases h1 : tf.value.length < tf.cursor
+  · rw [if_pos h1, List.take_of_length_le (by omega)]
+  · rw [if_neg h1]
+    by_cases h2 : 0 < tf.cursor
+    · rw [if_pos ⟨h2, by omega⟩]
+    · have h3 : tf.cursor = 0 := by omega
+      rw [if_neg (by omega), h3]
+      simp [widthSum]
+
+end VaxisModel.Lemmas.Editor
